@@ -289,21 +289,32 @@ fn consistency_one(sh: &mut Shard, prefix: &str) {
         sh.violation("self-consistency", json!({"program": p1, "prefix": prefix}), format!("the string prints as {text:?} ({n} characters) but lengte says {len_line}"));
         return;
     }
-    let mut p2 = prefix.clone();
-    let mut expect = String::new();
-    for j in 0..n {
-        p2.push_str(&format!(" print(s[{j}]); print(s[{}]);", -(j as i64) - 1));
-        expect.push_str(&format!("{}\n{}\n", cs[j], cs[n - 1 - j]));
-    }
-    p2.push_str(" lengte(s)");
-    let o2 = run_text(&p2, opts());
-    if !matches!(o2.end, ImplEnd::Value(_)) || o2.output != expect {
-        sh.violation(
-            "self-consistency",
-            json!({"program": p2, "prefix": prefix}),
-            format!("the string prints as {text:?} but reading it character by character gives {:?} ({})", o2.output, crate::common::impl_end_text(&o2.end)),
-        );
-        return;
+    // every character read back, in three orders (whatever the implementation remembers between two reads
+    // must not depend on the order): front-and-back alternating, descending, ascending after one read at the end
+    let orders: Vec<Vec<i64>> = vec![
+        (0..n as i64).flat_map(|j| [j, -j - 1]).collect(),
+        (0..n as i64).rev().collect(),
+        (if n > 0 { Some(n as i64 - 1) } else { None }).into_iter().chain(0..n as i64).collect(),
+        (0..n as i64).map(|j| -j - 1).collect(),
+    ];
+    for order in orders {
+        let mut p2 = prefix.clone();
+        let mut expect = String::new();
+        for j in &order {
+            p2.push_str(&format!(" print(s[{j}]);"));
+            let at = if *j < 0 { (n as i64 + j) as usize } else { *j as usize };
+            expect.push_str(&format!("{}\n", cs[at]));
+        }
+        p2.push_str(" lengte(s)");
+        let o2 = run_text(&p2, opts());
+        if !matches!(o2.end, ImplEnd::Value(_)) || o2.output != expect {
+            sh.violation(
+                "self-consistency",
+                json!({"program": p2, "prefix": prefix}),
+                format!("the string prints as {text:?} but reading it character by character gives {:?} ({})", o2.output, crate::common::impl_end_text(&o2.end)),
+            );
+            return;
+        }
     }
     for j in [n as i64, -(n as i64) - 1] {
         let p3 = format!("{prefix} s[{j}]");
@@ -340,6 +351,13 @@ fn self_consistency(sh: &mut Shard) {
                     let second = if rep2.is_empty() { String::new() } else { format!(" s[0] = \"{rep2}\";") };
                     let prefix = format!("stel s = \"{subj}\"; s[{i}] = \"{rep}\";{second}");
                     consistency_one(sh, &prefix);
+                    // the same after a read at every index (what a read leaves behind must not survive the write)
+                    if rep2.is_empty() {
+                        for before in 0..n0 {
+                            let prefix = format!("stel s = \"{subj}\"; stel vooraf = s[{before}]; s[{i}] = \"{rep}\";");
+                            consistency_one(sh, &prefix);
+                        }
+                    }
                 }
             }
         }
